@@ -1,4 +1,5 @@
 import Model.Geometry
+import Proofs.GeoSound
 /-!
 # C18 — pole grids
 
